@@ -1,5 +1,5 @@
 (* C05 -- Custom operators and token types integrate consistently.  Property theorems only. *)
-Require Import Base Token Tree Parser Registry ParserSpec RegistryProofs RenameProofs ClimbSpec ClimbProofs ClimbSpec2 ClimbProofs2 ClimbSpec3 ClimbProofs3.
+Require Import Base Token Tree Parser Registry ParserSpec RegistryProofs RenameProofs ClimbSpec ClimbProofs ClimbSpec2 ClimbProofs2 ClimbSpec3 ClimbProofs3 ClimbProofs3b.
 Require Import Gen.Tables.
 
 (* token ids: one stable id per name, distinct across names, above every built-in type *)
@@ -175,6 +175,8 @@ Theorem C05_cfg_ok_y_reachable : forall ops,
 Proof. exact cfg_ok_y_reachable. Qed.
 Print Assumptions C05_cfg_ok_y_reachable.
 
-(* Uniqueness of the well_grouped_y tree of a token list (the analogue of C05_grouping_unique_x) is
-   not a theorem yet; for these trees determinism of the parser gives: at most one well-grouped tree
-   per token list can satisfy C05_groups_by_level_y's conclusion up to the tokens yexpr drops. *)
+Theorem C05_grouping_unique_y : forall cfg c1 c2,
+  well_grouped_y cfg c1 = true -> well_grouped_y cfg c2 = true ->
+  yyield c1 = yyield c2 -> c1 = c2.
+Proof. exact ygroup_unique. Qed.
+Print Assumptions C05_grouping_unique_y.
